@@ -10,7 +10,7 @@ AR/MA/ARMA class: ObsC15.tla.
 import numpy as np
 
 from .. import core, material as M, tlc, obs, zoo
-from ..kern_util import call_guard, cmp_vec, cmp_scalar
+from ..kern_util import call_guard, cmp_vec, cmp_scalar, entry_variants
 
 
 def replay_state(chk, st, cplx):
@@ -28,16 +28,20 @@ def replay_state(chk, st, cplx):
         expRho = float(M.rat(f['rho']))
         Q, Mo = f['Q'], f['M']
         case = {'x': xa, 'Q': Q, 'M': Mo, 'expect': {'ma': expB, 'rho': expRho}}
-        ok, res = call_guard(ma, xa.copy(), Q, Mo)
-        chk.evaluations += 1
-        if not ok:
-            chk.violation('C15:ma:%s:raises' % mode, 'ma raises %r in its domain' % (res,), case)
-            continue
-        b, rho = res
-        bad = cmp_vec(b, expB, tol=1e-7, name='ma') or cmp_scalar(rho, expRho, tol=1e-7, name='rho')
-        if bad:
-            chk.violation('C15:ma:%s:values' % mode, 'ma(x=%s, Q=%d, M=%d) is not the chained Yule-Walker fit: %s' % (xa.tolist(), Q, Mo, bad),
-                          dict(case, observed={'ma': b, 'rho': rho}))
+        counter = getattr(chk, '_c15_counter', 0)
+        chk._c15_counter = counter + 1
+        for ename, xin, tol in entry_variants(xa, cplx, counter, full=chk.tier != 'quick'):
+            tol = 1e-7 if tol < 1e-6 else 1e-3
+            ok, res = call_guard(ma, xin if isinstance(xin, list) else xin.copy(), Q, Mo)
+            chk.evaluations += 1
+            if not ok:
+                chk.violation('C15:ma:%s:raises:%s' % (mode, ename), 'ma raises %r in its domain (%s input)' % (res, ename), case)
+                continue
+            b, rho = res
+            bad = cmp_vec(b, expB, tol=tol, name='ma') or cmp_scalar(rho, expRho, tol=tol, name='rho')
+            if bad:
+                chk.violation('C15:ma:%s:values:%s' % (mode, ename), 'ma(x=%s as %s, Q=%d, M=%d) is not the chained Yule-Walker fit: %s' % (xa.tolist(), ename, Q, Mo, bad),
+                              dict(case, entry=ename, observed={'ma': b, 'rho': rho}))
         ok, obj = call_guard(lambda: pma(xa.copy(), Q, Mo, NFFT=16))
         if ok:
             ok, _ = call_guard(lambda: obj.psd)
